@@ -29,6 +29,8 @@ fn extreme_args(ev: Ev) -> Vec<String> {
         v.extend(["0.5", "1.2", "1.0000001", "1.4", "1.5", "0.999", "(-0.5)", "(-0.3678794411714423)", "(-0.36)"].iter().map(|s| s.to_string()));
         v.extend(near_constants().into_iter().map(|s| s.to_string()));
         v.push("9".repeat(60));
+        // large arguments of both signs that are not integers (reflection / recurrence loops that walk |x| steps)
+        v.extend(["(-7000.5)", "(-100000.5)", "(-123456789012.5)", "(0.5-2^31)", "7000.5", "123456789012.5", "(-170.5)", "(-4000000000000000.5)", "99999.25", "(-99999.25)"].iter().map(|s| s.to_string()));
     } else {
         v.push("9223372036854775807".into());
         v.push("(-9223372036854775807-1)".into());
